@@ -365,8 +365,9 @@ def main():
             "coverage": cov, "assumptions": assumptions, "wall_s": round(wall, 2),
             "violations": len(unmatched),
         }
-        os.makedirs(os.path.join(VERIF, "evidence"), exist_ok=True)
-        with open(os.path.join(VERIF, "evidence", pid + ".json"), "w") as f:
+        evdir = os.environ.get("VERIF_EVIDENCE_DIR", os.path.join(VERIF, "evidence"))  # mutcheck.sh redirects it
+        os.makedirs(evdir, exist_ok=True)
+        with open(os.path.join(evdir, pid + ".json"), "w") as f:
             json.dump(ev, f, indent=1)
         log("property=%s tier=%s states=%d transitions=%d executions=%d evaluations=%d distinct_outcomes=%d exhaustive=%s wall=%.1fs" % (
             pid, tier, cov["states"], cov["transitions"], cov["traces_validated_against_impl"], cov["evaluations"],
